@@ -204,8 +204,9 @@ class Check:
         # the static development must be built (setup_cmd); rebuild incrementally if stale (serialised by a lock)
         p = subprocess.run(["flock", os.path.join(VERIF, "build", ".coq.lock"), os.path.join(VERIF, "bin", "setup")],
                            capture_output=True, text=True)
-        self.oblige("build:static-development", p.returncode == 0, clean_out(p.stdout + p.stderr)[-1500:], kind="gate")
-        return not bad and p.returncode == 0
+        # files that fail to compile surface as failing obligations of the checks that import them
+        self.extra["static_build"] = clean_out(p.stdout + p.stderr).strip().splitlines()[-1:] if p.stdout or p.stderr else []
+        return not bad
 
     def parse_assumptions(self, out):
         # output of `Print Assumptions t.` : "Closed under the global context" or "Axioms:\n name : type ..."
